@@ -1,58 +1,108 @@
 import OpdaModel.Emp
 /-!
 Model of the bucket construction in `QuadraticDistribution.fit` / `NoisyQuadraticDistribution.fit`
-(`np.unique(np.round(points), return_counts=True)` followed by the three positional fix-ups).
-Values are already rounded.
+(`np.unique(np.round(points), return_counts=True)` followed by the three positional fix-ups
+`ks = ks[1:]`, `ks[0] = n_lower`, `ks[-2] -= 1; ks[-1] = n_upper + 1`), and of the bucket counts the
+docstring describes (`ksSpec`).  Values are already rounded (`np.round` is a parameter of the model: the
+harness applies numpy's to the point list the model produces).
+
+`Option`-valued functions return `none` exactly where Python raises `IndexError`.
 -/
 namespace Opda.Fit
 open Opda.Emp
 variable {E : Type}
 
-/-- the point list handed to `np.unique`, each point with multiplicity 1 -/
+/-- the point list handed to `np.unique`, each point with multiplicity 1:
+`[edge_lo] ++ ([limit_lower] if n_lower > 0) ++ ys_observed ++ ([limit_upper] if n_upper > 0) ++ [edge_hi]` -/
+def pointValues (edgeLo : E) (ll : Option E) (obs : List E) (lu : Option E) (edgeHi : E) : List E :=
+  edgeLo :: (ll.toList ++ obs ++ lu.toList ++ [edgeHi])
+
 def points (edgeLo : E) (ll : Option E) (obs : List E) (lu : Option E) (edgeHi : E) : List (E × Nat) :=
-  ((edgeLo :: (ll.toList ++ obs ++ lu.toList ++ [edgeHi]))).map (fun v => (v, 1))
+  (pointValues edgeLo ll obs lu edgeHi).map (fun v => (v, 1))
 
 /-- `np.unique(..., return_counts=True)`: sorted distinct values with multiplicities -/
 def uniqueCounts [LT E] [DecidableLT E] [DecidableEq E] (pts : List (E × Nat)) : List (E × Nat) := atoms pts
 
-def setHead (v : Nat) : List Nat → List Nat
-  | [] => []            -- Python would raise IndexError
-  | _ :: rest => v :: rest
+/-- `ks[0] = v`; `none` = `IndexError` on an empty array -/
+def setHead? (v : Nat) : List Nat → Option (List Nat)
+  | [] => none
+  | _ :: rest => some (v :: rest)
 
-/-- `ks[-2] -= 1; ks[-1] = v` on a list with at least two entries -/
-def fixTail (v : Nat) : List Nat → List Nat
-  | [] => []
-  | [x] => [x]          -- Python would raise IndexError
-  | [x, _] => [x - 1, v]
-  | x :: y :: z :: rest => x :: fixTail v (y :: z :: rest)
+/-- `ks[-2] -= 1; ks[-1] = v`; `none` = `IndexError` (fewer than two entries) -/
+def fixTail? (v : Nat) : List Nat → Option (List Nat)
+  | [] => none
+  | [_] => none
+  | [x, _] => some [x - 1, v]
+  | x :: y :: z :: rest => (fixTail? v (y :: z :: rest)).map (x :: ·)
 
-/-- the code: `ks = counts[1:]; if n_lower>0: ks[0]=n_lower; if n_upper>0: ks[-2]-=1; ks[-1]=n_upper+1` -/
-def ksModel [LT E] [DecidableLT E] [DecidableEq E]
-    (edgeLo : E) (ll : Option E) (obs : List E) (lu : Option E) (edgeHi : E) (nLower nUpper : Nat) : List Nat :=
+/-- the code: `ks = counts[1:]; if n_lower>0: ks[0]=n_lower; if n_upper>0: ks[-2]-=1; ks[-1]=n_upper+1`.
+`ll`/`lu` are `some limit` exactly when `n_lower > 0` / `n_upper > 0`. -/
+def ksModel? [LT E] [DecidableLT E] [DecidableEq E]
+    (edgeLo : E) (ll : Option E) (obs : List E) (lu : Option E) (edgeHi : E) (nLower nUpper : Nat) :
+    Option (List Nat) :=
   let counts := (uniqueCounts (points edgeLo ll obs lu edgeHi)).map Prod.snd
   let ks := counts.tail
-  let ks := if ll.isSome then setHead nLower ks else ks
-  if lu.isSome then fixTail (nUpper + 1) ks else ks
+  (if ll.isSome then setHead? nLower ks else some ks).bind fun ks =>
+    if lu.isSome then fixTail? (nUpper + 1) ks else some ks
 
+/-- the bucket edges `zs` -/
 def zsModel [LT E] [DecidableLT E] [DecidableEq E]
     (edgeLo : E) (ll : Option E) (obs : List E) (lu : Option E) (edgeHi : E) : List E :=
   (uniqueCounts (points edgeLo ll obs lu edgeHi)).map Prod.fst
 
-/-- the documented count of the bucket `(zPrev, z]` -/
+/-- multiplicity of `z` among a list of values -/
+def mult [DecidableEq E] (z : E) (l : List E) : Nat := (l.filter (· = z)).length
+
+/-- the documented count of the left-open bucket `(zPrev, z]`: the uncensored observations in it (they
+all sit at its right end, because every observation is an edge), the left-censored observations if the
+bucket ends at the lower limit, the right-censored ones if it starts at the upper limit, and the extra
+count if it is the right-most bucket. -/
 def specCount [DecidableEq E] (ll : Option E) (obs : List E) (lu : Option E) (edgeHi : E) (nLower nUpper : Nat)
     (zPrev z : E) : Nat :=
-  (obs.filter (· = z)).length
+  mult z obs
     + (if ll = some z then nLower else 0)
     + (if lu = some zPrev then nUpper else 0)
     + (if z = edgeHi then 1 else 0)
 
-/-- the documented bucket counts along a list of edges (open-left buckets; the closed left-most
-bucket of the `o ≡ 0` case adds the observations equal to the first edge to the first bucket) -/
-def ksSpec [DecidableEq E] (ll : Option E) (obs : List E) (lu : Option E) (edgeHi : E) (nLower nUpper : Nat) :
+/-- the documented bucket counts along a list of edges, all buckets left-open -/
+def ksSpecOpen [DecidableEq E] (ll : Option E) (obs : List E) (lu : Option E) (edgeHi : E) (nLower nUpper : Nat) :
     List E → List Nat
   | [] => []
   | [_] => []
   | zPrev :: z :: rest =>
-    specCount ll obs lu edgeHi nLower nUpper zPrev z :: ksSpec ll obs lu edgeHi nLower nUpper (z :: rest)
+    specCount ll obs lu edgeHi nLower nUpper zPrev z :: ksSpecOpen ll obs lu edgeHi nLower nUpper (z :: rest)
+
+/-- what the closed left-most bucket of the `o ≡ 0` case adds: the observations *equal to* the first
+edge.  (Left-censored observations are `≤ limit_lower`; when the lower limit *is* the first edge they lie
+where every candidate distribution has probability zero, so no bucket can take them: the documented
+counts then sum to less than `n + 1` and the grouped likelihood is zero.) -/
+def closedExtra [DecidableEq E] (obs : List E) (z0 : E) : Nat := mult z0 obs
+
+def addHead (v : Nat) : List Nat → List Nat
+  | [] => []
+  | x :: rest => (x + v) :: rest
+
+/-- the documented bucket counts (`closedLeft` = "the leftmost bucket must be closed") -/
+def ksSpec [DecidableEq E] (closedLeft : Bool) (ll : Option E) (obs : List E) (lu : Option E) (edgeHi : E)
+    (nLower nUpper : Nat) (zs : List E) : List Nat :=
+  let open_ := ksSpecOpen ll obs lu edgeHi nLower nUpper zs
+  match closedLeft, zs with
+  | true, z0 :: _ => addHead (closedExtra obs z0) open_
+  | _, _ => open_
+
+def sumNat : List Nat → Nat
+  | [] => 0
+  | x :: rest => x + sumNat rest
+
+/-- side condition (A) of C10-T1: the lower support edge lies strictly below every other point -/
+def sideA [LT E] [DecidableLT E] (edgeLo : E) (ll : Option E) (obs : List E) (lu : Option E) (edgeHi : E) : Bool :=
+  (ll.toList ++ obs ++ lu.toList ++ [edgeHi]).all fun p => decide (edgeLo < p)
+
+/-- side condition (B) of C10-T1: with right-censored observations the upper limit lies strictly below the
+upper support edge -/
+def sideB [LT E] [DecidableLT E] (lu : Option E) (edgeHi : E) : Bool :=
+  match lu with
+  | none => true
+  | some u => decide (u < edgeHi)
 
 end Opda.Fit
